@@ -121,6 +121,13 @@ Section Verify.
         else find_highest_valid_qc (aggqc_pool qcs)
     end.
 
+  (* the comparison VerifyAnyQC makes between the block's QC and the aggregate's high QC (repaired,
+     fixes/C02-anyqc-deterministic-highqc.patch): same view and same block; the tree compared with
+     QuorumCert.Equals, i.e. also the signature bytes, which made the verdict depend on WHICH of several
+     equal-view valid QCs findHighestValidQC happened to return *)
+  Definition qc_same_block (a b : qc) : bool :=
+    N.eqb (qc_view a) (qc_view b) && N.eqb (qc_hash a) (qc_hash b).
+
   (* QuorumCert.Equals: view, hash, and signature bytes (or both nil) *)
   Definition qc_equals (a b : qc) : bool :=
     N.eqb (qc_view a) (qc_view b) && N.eqb (qc_hash a) (qc_hash b) &&
@@ -139,7 +146,7 @@ Section Verify.
         | None => Reject                                                  (* aggQC.Sig() == nil guard *)
         | Some _ =>
         match pick (verify_aggqc a) with
-        | Ok hq => if negb (qc_equals bqc hq) then Reject else verify_qc bqc
+        | Ok hq => if negb (qc_same_block bqc hq) then Reject else verify_qc bqc
         | Reject => Reject
         | Panic => Panic
         end
